@@ -33,6 +33,8 @@ TECHNIQUE += '; def-use check of the screening bound'
 EXPLANATION += " Added to R6: the shell-pair screening bound is computed from a min-reduction over each shell's exponents (the bound must dominate every primitive pair)."
 TECHNIQUE += '; guard enumeration on the shell-pair loops'
 EXPLANATION += ' Added: (R7) a shell-pair block is stored under no other condition than the screening comparison and the one-basis symmetry flag; no continue/break leaves a shell-pair iteration; the screening quantity is assigned once before its test.'
+TECHNIQUE += '; symbolic evaluation of the convention conversion after the shell loops'
+EXPLANATION += ' R3 no longer matches statements: the part of compute_overlap after the shell loops is interpreted on a symbolic 3x3 matrix with stubbed convert_conventions results (distinct permutations and symbolic signs per basis, one- and two-basis call), the returned matrix must be signs_row[i]*signs_col[j]*internal[perm_row[i], perm_col[j]] and convert_conventions must be called with HORTON2_CONVENTIONS and reverse=True.'
 TRUSTED = ["CPython ast parser", "closed-form Gaussian moment integrals (double factorials)", "uniqueness of the harmonic polynomial with given (l, |m|, y-parity) up to scale"]
 
 TOL = 1e-12
@@ -138,10 +140,21 @@ def check_tf(l, T, report_ok, report_bad):
             report_ok(r, f"tf{l} row {r} = {lab}: orthonormal, harmonic, L_z^2={m*m}, parity/sign ok ({sum(1 for x in T[r] if x)} non-zero entries)")
 
 
-def _is_bool_flag(func, name):
-    """A local that is only ever assigned the constants True / False (the one-basis symmetry flag)."""
+def _is_bool_flag(func, name, depth=0):
+    """A local that only ever holds True / False, an identity test of the basis arguments, or another such flag
+    (the one-basis symmetry flag)."""
     vals = [n.value for n in func.own_nodes() if isinstance(n, ast.Assign) and any(isinstance(t, ast.Name) and t.id == name for t in n.targets)]
-    return bool(vals) and name not in func.params and all(isinstance(v, ast.Constant) and isinstance(v.value, bool) for v in vals)
+    if not vals or name in func.params or depth > 3:
+        return False
+    for v in vals:
+        if isinstance(v, ast.Constant) and isinstance(v.value, bool):
+            continue
+        if isinstance(v, ast.Compare) and len(v.ops) == 1 and isinstance(v.ops[0], (ast.Is, ast.IsNot)):
+            continue
+        if isinstance(v, ast.Name) and _is_bool_flag(func, v.id, depth + 1):
+            continue
+        return False
+    return True
 
 
 def run(ctx):
@@ -310,66 +323,8 @@ def run(ctx):
                     ctx.violate("R5", f"transposed store is not control-dependent on `{fl}`", co, n)
 
     # ------------------------------------------------------------------ R3
-    ctx.rule("R3", "rows and columns converted with the matching basis' conventions", "a dropped permutation/sign or a wrong direction returns the matrix in internal order")
-    cc = prog.func("iodata.convert.convert_conventions")
-    sites = [cs for cs in co.calls if cc in cs.callees]
-    res = {}
-    for cs in sites:
-        bound, extra, okb = bind_call(cs.node, cc)
-        basis = bound.get(cc.posparams[0])
-        table = bound.get(cc.posparams[1])
-        rev = bound.get(cc.posparams[2])
-        r = prog.resolve_expr(co, co.module, table) if table is not None else None
-        tgt_ok = bool(r and r[0] == "global" and r[1].name == "iodata.convert" and r[2] == "HORTON2_CONVENTIONS")
-        rev_ok = isinstance(rev, ast.Constant) and rev.value is True
-        bname = basis.id if isinstance(basis, ast.Name) else None
-        par = prog.parents(co).get(id(cs.node))
-        if tgt_ok and rev_ok and bname in (b0, b1) and isinstance(par, ast.Assign) and isinstance(par.targets[0], ast.Tuple):
-            res[bname] = [e.id for e in par.targets[0].elts]
-            ctx.ok("R3", f"convert_conventions({bname}, HORTON2_CONVENTIONS, reverse=True)", f"{om.relpath}:{cs.node.lineno}")
-        else:
-            ctx.violate("R3", "convert_conventions is not called as (basis, HORTON2_CONVENTIONS, reverse=True)", co, cs.node)
-    # aliasing on the identical path: permutation1, signs1 = permutation0, signs0
-    if b0 in res:
-        for n in co.own_nodes():
-            if isinstance(n, ast.Assign) and isinstance(n.targets[0], ast.Tuple) and isinstance(n.value, ast.Tuple):
-                vs = [getattr(e, "id", None) for e in n.value.elts]
-                if vs == res[b0]:
-                    res.setdefault(b1 + "@alias", [e.id for e in n.targets[0].elts])
-    ret = [n for n in co.own_nodes() if isinstance(n, ast.Return)]
-    row_ok = col_ok = False
-    rown = res.get(b0)
-    coln = res.get(b1) or res.get(b1 + "@alias")
-    if b1 in res and (b1 + "@alias") in res and res[b1] != res[b1 + "@alias"]:
-        coln = None
-    for n in co.own_nodes():
-        if isinstance(n, ast.BinOp) and isinstance(n.op, ast.Mult):
-            for sub, fac in ((n.left, n.right), (n.right, n.left)):
-                if isinstance(sub, ast.Subscript):
-                    sl = sub.slice
-                    if rown and isinstance(sl, ast.Name) and sl.id == rown[0]:
-                        # rows: factor must be signs0 reshaped to a column
-                        f2 = fac
-                        iscol = isinstance(f2, ast.Call) and getattr(f2.func, "attr", "") == "reshape" and isinstance(f2.func.value, ast.Name) and f2.func.value.id == rown[1]
-                        iscol = iscol or (isinstance(f2, ast.Subscript) and isinstance(f2.value, ast.Name) and f2.value.id == rown[1])
-                        row_ok = row_ok or iscol
-                    if coln and isinstance(sl, ast.Tuple) and len(sl.elts) == 2 and isinstance(sl.elts[0], ast.Slice) and isinstance(sl.elts[1], ast.Name) and sl.elts[1].id == coln[0]:
-                        col_ok = col_ok or (isinstance(fac, ast.Name) and fac.id == coln[1])
-    if row_ok:
-        ctx.ok("R3", "rows: overlap[permutation0] * signs0 as a column", co.where)
-    else:
-        ctx.violate("R3", "rows are not indexed with permutation0 and scaled with signs0 (as a column vector)", co, ret[0] if ret else co.node, construct="row conversion")
-    if col_ok:
-        ctx.ok("R3", "columns: overlap[:, permutation1] * signs1", co.where)
-    else:
-        ctx.violate("R3", "columns are not indexed with permutation1 and scaled with signs1", co, ret[0] if ret else co.node, construct="column conversion")
-    # the value returned is the converted one
-    if ret and len(ret) == 1:
-        rv = deref(co, ret[0].value)
-        if coln and coln[0] in names_in(rv) and coln[1] in names_in(rv):
-            ctx.ok("R3", "the returned value is the column-converted matrix", f"{om.relpath}:{ret[0].lineno}")
-        else:
-            ctx.violate("R3", "the returned matrix is not the convention-converted one", co, ret[0])
+    ctx.rule("R3", "rows and columns converted with the matching basis' conventions", "a dropped permutation/sign, signs applied before the rows are moved, or a wrong direction returns a matrix whose rows/columns belong to other functions")
+    _check_overlap_tail(ctx, co, b0, b1)
 
     # ------------------------------------------------------------------ R4
     ctx.rule("R4", "bases are segmented before angmoms[0]/kinds[0] are used", "a generalized contraction would be computed with its first angular momentum only")
@@ -496,3 +451,82 @@ def run(ctx):
         if not nskip:
             ctx.ok("R7", f"{len(stores)} block store(s): guarded only by the screening comparison / the one-basis symmetry flag; no continue/break at shell level; screening quantities assigned once", f"{om.relpath}:{inner_l.lineno}")
         ctx.floor("R7", len(stores), 1, "block stores")
+
+
+def _check_overlap_tail(ctx, co, b0, b1):
+    """The statements of compute_overlap after the shell loops, evaluated on a symbolic matrix: the returned matrix is
+    out[i, j] = signs_row[i] * signs_col[j] * internal[perm_row[i], perm_col[j]], with the (permutation, signs) of
+    convert_conventions(<basis>, HORTON2_CONVENTIONS, reverse=True) of the row / column basis."""
+    import numpy as np
+
+    from ..accessors import AccessorEval, Raised
+    from ..consteval import ConstEval, NotConstant
+    from ..symarr import NotSymbolic, first_difference, sym_array
+
+    prog = ctx.prog
+    cc = prog.func("iodata.convert.convert_conventions")
+    loops = [k for k, st in enumerate(co.body) if isinstance(st, ast.For) and any(isinstance(x, ast.Attribute) and x.attr == "shells" for x in ast.walk(st.iter))]
+    if not loops:
+        raise AnalysisError("compute_overlap: cannot find the shell loop")
+    tail = co.body[loops[-1] + 1:]
+    stores = [n for n in ast.walk(co.body[loops[-1]]) if isinstance(n, ast.Assign) and any(isinstance(t, ast.Subscript) and isinstance(t.value, ast.Name) for t in n.targets)]
+    mats = {t.value.id for n in stores for t in n.targets if isinstance(t, ast.Subscript) and isinstance(t.value, ast.Name)}
+    mat = next((m for m in mats if any(isinstance(x, ast.Name) and x.id == m for st in tail for x in ast.walk(st))), None)
+    flags = sorted({x.id for st in tail for x in ast.walk(st) if isinstance(x, ast.Name) and _is_bool_flag(co, x.id)} | {x.test.id for st in tail for x in ast.walk(st) if isinstance(x, (ast.If, ast.IfExp)) and isinstance(x.test, ast.Name) and x.test.id in co.locals} | {x.test.operand.id for st in tail for x in ast.walk(st) if isinstance(x, (ast.If, ast.IfExp)) and isinstance(x.test, ast.UnaryOp) and isinstance(x.test.operand, ast.Name) and x.test.operand.id in co.locals})
+    if mat is None or not tail:
+        raise AnalysisError("compute_overlap: cannot find the convention conversion after the shell loops")
+    try:
+        h2 = ConstEval(prog).global_value(prog.module("iodata.convert"), "HORTON2_CONVENTIONS")
+    except NotConstant as exc:
+        raise AnalysisError(f"HORTON2_CONVENTIONS is not a constant: {exc}") from exc
+    where = f"{co.module.relpath}:{tail[0].lineno}"
+    try:
+        for identical in (True, False):
+            O = sym_array("O", (3, 3))
+            m0, m1 = ("basis", 0), ("basis", 0 if identical else 1)
+            res = {0: ([2, 0, 1], sym_array("r", (3,))), 1: ([1, 2, 0], sym_array("q", (3,)))}
+            calls = []
+
+            def stub(args, kw, calls=calls, res=res):
+                bound = dict(zip(cc.posparams, args))
+                bound.update(kw)
+                calls.append(bound)
+                b = bound.get(cc.posparams[0])
+                if not (isinstance(b, tuple) and b and b[0] == "basis"):
+                    raise NotSymbolic("convert_conventions called on something else than a basis argument")
+                p_, s_ = res[b[1]]
+                return (np.array(p_), s_)
+
+            ev = AccessorEval(prog, prog.cls("iodata.basis.Shell"))
+            ev.module = co.module
+            ev.stubs = {cc.qualname: stub}
+            local = {mat: O.copy(), b0: m0, b1: m1}
+            for fl in flags:
+                local[fl] = identical
+            got = None
+            try:
+                from ..accessors import _Return
+
+                try:
+                    ev._block(tail, local)
+                except _Return as r:
+                    got = r.value
+            except Raised as exc:
+                ctx.violate("R3", f"the conversion after the shell loops raises {exc.cls} ({'one basis' if identical else 'two bases'})", co, tail[0], construct=f"overlap tail raises {exc.cls}")
+                continue
+            label = "one basis" if identical else "two bases"
+            bad = [c for c in calls if c.get(cc.posparams[2]) is not True or c.get(cc.posparams[1]) != h2]
+            if bad:
+                c = bad[0]
+                ctx.violate("R3", f"{label}: convert_conventions is called with reverse={c.get(cc.posparams[2])!r}" + ("" if c.get(cc.posparams[1]) == h2 else " and a table other than HORTON2_CONVENTIONS") + ": the matrix is computed in HORTON2 order, so the conversion to the basis' conventions needs (basis, HORTON2_CONVENTIONS, reverse=True)", co, tail[0], construct=f"overlap tail {label}: convert_conventions arguments")
+                continue
+            pr, sr = res[0]
+            pc, sc = res[0] if identical else res[1]
+            want = np.array([[sr[i] * sc[j] * O[pr[i], pc[j]] for j in range(3)] for i in range(3)], dtype=object)
+            diff = first_difference(got, want) if got is not None else "nothing is returned"
+            if diff is None:
+                ctx.ok("R3", f"{label}: returned[i, j] = signs_row[i] * signs_col[j] * internal[perm_row[i], perm_col[j]] (evaluated on a symbolic 3x3 matrix; rows use the first basis, columns the " + ("same" if identical else "second") + " basis; convert_conventions(..., HORTON2_CONVENTIONS, reverse=True))", where)
+            else:
+                ctx.violate("R3", f"{label}: the matrix returned after the shell loops is not the convention-converted one: {diff}", co, tail[-1], construct=f"overlap tail {label}: {diff}"[:200])
+    except NotSymbolic as exc:
+        raise AnalysisError(f"compute_overlap: the conversion after the shell loops is outside the evaluation whitelist: {exc}") from exc
